@@ -18,7 +18,7 @@ MIN_COUNTS = {'operations': (20000000, 300000000), 'handoffs': (100000, 2000000)
 def run(ctx):
     cc = ctx.build('plain')
     work = ctx.tmpdir('c16')
-    ctx.rule = ('phase = (operation family, width/signedness, storage class) run by N pinned threads x n operations with per-thread result logs; 11 families x 6 widths x 3 storages; '
+    ctx.rule = ('phase = (operation family, width/signedness, storage class) run by N pinned threads x n operations with per-thread result logs; 16 families x 11 object variants x 3 storages; '
                 'distinct = distinct phases executed; interleavings witnessed are counted as hand-offs (adjacent results owned by different threads) and failed CASes')
     ctx.assumptions += ['schedules are whatever the pinned cores produce; x86-TSO only', 'helgrind sees the emitted instructions; it is quiet on correct lock-prefixed code (verified) and reports races when the prefix is missing']
     src = os.path.join(core.VERIF, 'rt', 'c16', 'workers.c')
@@ -38,6 +38,7 @@ def run(ctx):
         return
     script = ('$CHIBICC -c -o w.o $VERIF/rt/c16/workers.c && gcc -O1 -c -o h.o $VERIF/rt/c16/harness.c && gcc -o stress h.o w.o -lpthread && ./stress 8 50000 1 | grep -q VIOLATION && exit 1; exit 0')
     rounds = ctx.scale(2, 12)
+    hung = False
     for r in range(rounds):
         threads = [8, 12, 2, 4, 16, 6, 3, 8, 12, 5, 7, 10][r % 12]
         n = ctx.scale(40000, 100000)
@@ -49,6 +50,7 @@ def run(ctx):
             if rc2 == 'timeout':
                 last = [l for l in o2.decode('utf-8', 'replace').split('\n') if l.startswith('PHASE')]
                 ctx.violation('C16|hang|after:%s' % (last[-1].split(' threads')[0] if last else 'start'), 'stress run does not terminate (retry loop never succeeds?)', script=script)
+                hung = True
                 break
             else:
                 ctx.note_inconclusive('stress run timed out once')
@@ -74,7 +76,7 @@ def run(ctx):
         if r == 0:
             ctx.sample({'phase_lines': [l for l in lines if l.startswith('PHASE')][:6], 'stats': m.group(0)})
     # helgrind on the emitted code
-    hruns = ctx.scale(1, 4)
+    hruns = 0 if hung else ctx.scale(1, 4)     # a workload that does not terminate natively will not terminate under helgrind either
     for r in range(hruns):
         rc, o, e = core.sh(['valgrind', '--tool=helgrind', '--error-exitcode=9', exe, str(3 + r), str(ctx.scale(300, 1500)), str(ctx.seed + r), 'small'], timeout=600)
         et = e.decode('utf-8', 'replace')
